@@ -1435,6 +1435,17 @@ def reserved_keyword_after_valid_calls(case):
                 got = type(e).__name__
             if got != "TypeError":
                 fails.append("%s: the keyword %s after %d valid calls: %s, expected TypeError" % (case["kind"], kw, n_before, got))
+            # the refusal leaves nothing behind: the next call is checked like any other
+            try:
+                call(None)
+                got = "returned"
+            except icontract.ViolationError:
+                got = "violation"
+            except BaseException as e:  # noqa: B902
+                got = type(e).__name__
+            if got != "violation":
+                fails.append("%s: a call violating the postcondition right after the refused keyword %s: %s, expected a violation"
+                             % (case["kind"], kw, got))
     return {"fails": fails}
 
 
@@ -2477,7 +2488,1042 @@ def default_limits_cases():
             yield {"dom": "directed", "name": "default_limits", "kind": kind, "type": t}
 
 
-SCENARIOS = {"default_limits": default_limits, "one_function_in_two_roles": one_function_in_two_roles, "callable_exception_instance": callable_exception_instance, "contracts_on_bound_methods": contracts_on_bound_methods, "rejected_constructions_do_not_accumulate": rejected_constructions_do_not_accumulate, "sometimes_awaitable_condition": sometimes_awaitable_condition, "property_inherited_into_class_with_invariants": property_inherited_into_class_with_invariants, "members_from_invariantless_bases": members_from_invariantless_bases, "invariants_while_another_thread_reports": invariants_while_another_thread_reports, "separation_in_every_interpreter_mode": separation_in_every_interpreter_mode, "falsy_and_truthy_values": falsy_and_truthy_values, "special_results": special_results, "contracts_on_partial": contracts_on_partial, "error_functions_sharing_code": error_functions_sharing_code, "closed_from_another_context": closed_from_another_context, "proxies_and_nested_constructors": proxies_and_nested_constructors, "member_added_between_invariants": member_added_between_invariants, "integrator_snapshot_without_postcondition": integrator_snapshot_without_postcondition, "exception_from_new": exception_from_new, "interrupt_while_message_is_built": interrupt_while_message_is_built, "concurrent_constructors_without_init": concurrent_constructors_without_init, "async_def_spelling": async_def_spelling, "class_keyword_arguments": class_keyword_arguments, "reserved_keyword_after_valid_calls": reserved_keyword_after_valid_calls, "call_while_constructor_runs": call_while_constructor_runs, "constructor_calls_back": constructor_calls_back, "contract_calls_same_method_of_fresh_object": contract_calls_same_method_of_fresh_object, "odd_exception_classes": odd_exception_classes, "sync_layer_over_coroutine": sync_layer_over_coroutine, "keyword_named_self": keyword_named_self, "decorating_another_function": decorating_another_function, "late_decoration_of_inheriting_override": late_decoration_of_inheriting_override, "used_before_override": used_before_override, "rewritten_file": rewritten_file, "shared_decorator": shared_decorator, "construct_inside_contract": construct_inside_contract,
+# --------------------------------------------------------------------------- round 11
+
+class _Awaitable:
+    """an awaitable that is not a coroutine (like asyncio.Future / Task: an object with __await__)"""
+
+    def __init__(self, value):
+        self.value = value
+
+    def __await__(self):
+        return self.value
+        yield  # pragma: no cover
+
+
+def awaitable_kinds(case):
+    """a condition (an ordinary function) of an async callable hands back an awaitable of ANY kind - a coroutine, an object
+    with __await__, an asyncio.Future, an asyncio.Task: it is awaited and the call is judged on the result"""
+    import asyncio
+
+    async def coro(v):
+        return v
+
+    def make(kind, v):
+        if kind == "coroutine":
+            return coro(v)
+        if kind == "object":
+            return _Awaitable(v)
+        if kind == "future":
+            fut = asyncio.get_event_loop().create_future()
+            fut.set_result(v)
+            return fut
+        return asyncio.ensure_future(coro(v))
+
+    kind = case["kind"]
+
+    def cond(x):
+        return make(kind, x > 0)
+
+    def post(x, result):
+        return make(kind, x > 0)
+
+    if case["role"] == "require":
+        @icontract.require(cond)
+        async def f(x):
+            return x
+    elif case["role"] == "ensure":
+        @icontract.ensure(post)
+        async def f(x):
+            return x
+    else:
+        class A(icontract.DBC):
+            @icontract.require(cond)
+            async def m(self, x):
+                return x
+
+        class B(A):
+            async def m(self, x):
+                return x
+        f = B().m
+
+    async def main():
+        fails = []
+        for x in case["history"]:
+            want = "ok" if x > 0 else "violation"
+            try:
+                await f(x)
+                got = "ok"
+            except icontract.ViolationError:
+                got = "violation"
+            except BaseException as e:  # noqa: B902
+                got = "raised %s: %s" % (type(e).__name__, str(e)[:60])
+            if got != want:
+                fails.append("%s returning a %s, call f(%r): %s, expected %s" % (case["role"], kind, x, got, want))
+        return fails
+    return {"fails": asyncio.run(main())}
+
+
+def awaitable_kinds_cases():
+    for role in ("require", "ensure", "inherited"):
+        for kind in ("coroutine", "object", "future", "task"):
+            yield {"dom": "directed", "name": "awaitable_kinds", "role": role, "kind": kind, "history": [1, -1, 2, -2]}
+
+
+def wrapped_async_public_method(case):
+    """a public method that is an `async def` wrapper (functools.wraps) around a plain function - `run the blocking body in
+    the background` decorators: it IS a coroutine function, so the invariants are evaluated before the body and after the
+    awaited body, like for any async method"""
+    import functools
+    log = []
+
+    def background(fn):
+        @functools.wraps(fn)
+        async def wrapper(*args, **kwargs):
+            await _Yielder()
+            return fn(*args, **kwargs)
+        return wrapper
+
+    def positive(self):
+        log.append("inv")
+        return self.x > 0
+
+    @icontract.invariant(positive)
+    class A:
+        def __init__(self):
+            self.x = 1
+
+        @background
+        def set(self, v):
+            log.append("body")
+            self.x = v
+            return v
+
+        if case["contracts"]:
+            set = icontract.require(lambda v: v is not None)(set)
+
+    a = A()
+    fails = []
+    for v, want in ((5, "ok"), (-1, "violation")):
+        del log[:]
+        a.x = 1
+        try:
+            _drive_all(a.set(v))
+            got = "ok"
+        except icontract.ViolationError:
+            got = "violation"
+        except BaseException as e:  # noqa: B902
+            got = "raised %s" % type(e).__name__
+        if got != want or log != ["inv", "body", "inv"]:
+            fails.append("await a.set(%r): %s with evaluations %s, expected %s with ['inv', 'body', 'inv']" % (v, got, log, want))
+    return {"fails": fails}
+
+
+class _Yielder:
+    def __await__(self):
+        yield self
+
+
+def wrapped_async_public_method_cases():
+    for contracts in (False, True):
+        yield {"dom": "directed", "name": "wrapped_async_public_method", "contracts": contracts}
+
+
+def odd_member_names(case):
+    """which members get the invariants is decided by the documented rule on the NAME: public names and `__dunder__` names
+    do, `_protected`, `__mangled`, and also `_x__`-like names (one leading underscore, whatever the ending) do not"""
+    log = []
+
+    def inv(self):
+        log.append("inv")
+        return True
+
+    names = ["m", "m_", "m__", "_p", "_p_", "_p__", "__q", "__q_", "__enter__", "__r__", "_", "__"]
+    ns = {"__init__": lambda self: None}
+    for n in names:
+        ns[n] = (lambda self: "body")
+    if case["members"] == "properties":
+        for n in names:
+            ns[n] = property(ns[n])
+    A = icontract.invariant(inv)(type("A", (), ns))
+    a = A()
+    fails = []
+    for n in names:
+        # a name mangled inside a class body is written out here as it is: `__q` stays `__q`
+        public = not n.startswith("_") or (n.startswith("__") and n.endswith("__"))
+        del log[:]
+        if case["members"] == "properties":
+            getattr(a, n)
+        else:
+            getattr(a, n)()
+        want = 2 if public else 0
+        if len(log) != want:
+            fails.append("%s %r: the invariant was evaluated %d times around it, expected %d" % (case["members"], n, len(log), want))
+    return {"fails": fails}
+
+
+def odd_member_names_cases():
+    for members in ("methods", "properties"):
+        yield {"dom": "directed", "name": "odd_member_names", "members": members}
+
+
+def member_attached_later(case):
+    """a base class gets a (contracted) member only AFTER a first subclass with that member exists; a subclass created after
+    that inherits the member's contracts like from any base"""
+    def small(x):
+        return x < 10
+
+    def even_result(result):
+        return result % 2 == 0
+
+    class Base(icontract.DBC):
+        pass
+
+    class Early(Base):
+        def m(self, x):
+            return x
+
+    @icontract.require(small)
+    @icontract.ensure(even_result)
+    def m(self, x):
+        return x
+
+    if case["how"] == "setattr":
+        Base.m = m
+    else:
+        setattr(Base, "m", m)
+        Base.helper = lambda self: None
+
+    if case["own"]:
+        def huge(x):
+            return x > 1000
+
+        class Late(Base):
+            @icontract.require(huge)
+            def m(self, x):
+                return x
+        table = [(4, "ok"), (2000, "ok"), (50, "violation"), (3, "violation"), (2001, "violation")]
+    else:
+        class Late(Base):
+            def m(self, x):
+                return x
+        table = [(4, "ok"), (50, "violation"), (3, "violation")]
+    fails = []
+    for x, want in table:
+        try:
+            Late().m(x)
+            got = "ok"
+        except icontract.ViolationError:
+            got = "violation"
+        except BaseException as e:  # noqa: B902
+            got = "raised %s" % type(e).__name__
+        if got != want:
+            fails.append("Late().m(%r): %s, expected %s (contracts of the member attached to the base: x < 10, even result%s)"
+                         % (x, got, want, "; own precondition x > 1000" if case["own"] else ""))
+    # the early subclass keeps what it had
+    try:
+        Early().m(51)
+    except BaseException as e:  # noqa: B902
+        fails.append("Early().m(51) (defined before the base had the member): raised %s" % type(e).__name__)
+    return {"fails": fails}
+
+
+def member_attached_later_cases():
+    for how in ("setattr", "setattr+other"):
+        for own in (False, True):
+            yield {"dom": "directed", "name": "member_attached_later", "how": how, "own": own}
+
+
+def partial_binding_a_parameter_name(case):
+    """a condition / capture given as functools.partial that binds BY KEYWORD a name which is also a parameter of the
+    function: the call's value is what the condition gets - exactly what the body gets"""
+    import functools
+    seen = []
+
+    def within(x, limit):
+        seen.append(("cond", x, limit))
+        return x <= limit
+
+    def cap(x, limit):
+        seen.append(("capture", x, limit))
+        return limit
+
+    cond = functools.partial(within, limit=10)
+    role = case["role"]
+    if role == "require":
+        deco = [icontract.require(cond, error=ValueError("violation"))]
+    elif role == "ensure":
+        deco = [icontract.ensure(cond, error=ValueError("violation"))]
+    else:
+        deco = [icontract.snapshot(functools.partial(cap, limit=10), name="lim"),
+                icontract.ensure(lambda OLD, limit: OLD.lim == limit, error=ValueError("snapshot differs"))]
+    if case["flavour"] == "async":
+        async def clip(x, limit=3):
+            seen.append(("body", x, limit))
+            return min(x, limit)
+    else:
+        def clip(x, limit=3):
+            seen.append(("body", x, limit))
+            return min(x, limit)
+    for d in reversed(deco):
+        clip = d(clip)
+    fails = []
+    for args, kwargs in (((5,), {}), ((5, 3), {}), ((12, 20), {}), ((2,), {"limit": 1}), ((1,), {"limit": 10})):
+        del seen[:]
+        try:
+            r = clip(*args, **kwargs)
+            if case["flavour"] == "async":
+                _drive_all(r)
+            got = "ok"
+        except ValueError as e:
+            got = str(e)
+        except BaseException as e:  # noqa: B902
+            got = "raised %s: %s" % (type(e).__name__, str(e)[:80])
+        x = args[0]
+        limit = args[1] if len(args) > 1 else kwargs.get("limit", 3)
+        if role in ("require", "ensure"):
+            want = "ok" if x <= limit else "violation"
+        else:
+            want = "ok"
+        bad = [t for t in seen if t[1:] != (x, limit)]
+        if got != want or bad:
+            fails.append("%s %s clip%s%s: %s (expected %s); evaluations that did not see x=%r, limit=%r: %s"
+                         % (case["flavour"], role, args, kwargs or "", got, want, x, limit, bad))
+    return {"fails": fails}
+
+
+def partial_binding_a_parameter_name_cases():
+    for role in ("require", "ensure", "snapshot"):
+        for flavour in ("sync", "async"):
+            yield {"dom": "directed", "name": "partial_binding_a_parameter_name", "role": role, "flavour": flavour}
+
+
+def odd_capture_callables(case):
+    """a snapshot capture may be any callable: a bound method, a function behind a functools.wraps decorator, a partial, a
+    callable object - its parameters are those of its SIGNATURE"""
+    import functools
+
+    class Helper:
+        def copy_of(self, lst):
+            return list(lst)
+
+        def __call__(self, lst):
+            return list(lst)
+
+    def traced(fn):
+        @functools.wraps(fn)
+        def wrapper(*args, **kwargs):
+            return fn(*args, **kwargs)
+        return wrapper
+
+    @traced
+    def wrapped(lst):
+        return list(lst)
+
+    def two(extra, lst):
+        return list(lst)
+
+    caps = {"bound": Helper().copy_of, "wrapped": wrapped, "partial": functools.partial(two, 0), "object": Helper()}
+    cap = caps[case["capture"]]
+    fails = []
+    def post_named(lst, OLD):
+        return lst == OLD.before + [len(OLD.before)]
+
+    def post_unnamed(lst, OLD):
+        return lst == OLD.lst + [len(OLD.lst)]
+
+    try:
+        if case["named"]:
+            snap = icontract.snapshot(cap, name="before")
+            post = post_named
+        else:
+            snap = icontract.snapshot(cap)
+            post = post_unnamed
+
+        @snap
+        @icontract.ensure(post)
+        def push(lst):
+            lst.append(len(lst) if case["good"] else -1)
+    except BaseException as e:  # noqa: B902
+        return {"fails": ["defining a snapshot with a %s capture (%s): %s: %s"
+                          % (case["capture"], "named" if case["named"] else "unnamed", type(e).__name__, str(e)[:100])]}
+    try:
+        push([0, 1])
+        got = "ok"
+    except icontract.ViolationError:
+        got = "violation"
+    except BaseException as e:  # noqa: B902
+        got = "raised %s: %s" % (type(e).__name__, str(e)[:100])
+    want = "ok" if case["good"] else "violation"
+    if got != want:
+        fails.append("%s capture (%s), body %s: %s, expected %s" % (case["capture"], "named" if case["named"] else "unnamed",
+                                                                    "keeps the postcondition" if case["good"] else "breaks it", got, want))
+    return {"fails": fails}
+
+
+def odd_capture_callables_cases():
+    for capture in ("bound", "wrapped", "partial", "object"):
+        for named in (True, False):
+            for good in (True, False):
+                yield {"dom": "directed", "name": "odd_capture_callables", "capture": capture, "named": named, "good": good}
+
+
+def error_function_called_every_time(case):
+    """`error` given as a function WITHOUT parameters: it is called once per violation - the second and the tenth violation
+    raise what THAT call of the function returned"""
+    state = {"n": 0}
+
+    class Helper:
+        def make(self):
+            state["n"] += 1
+            return ValueError("violation number %d" % state["n"])
+
+    def make():
+        state["n"] += 1
+        return ValueError("violation number %d" % state["n"])
+
+    err = {"function": make, "lambda": (lambda: make()), "bound": Helper().make}[case["error"]]
+
+    def positive(x):
+        return x > 0
+
+    role = case["role"]
+    if role == "require":
+        @icontract.require(positive, error=err)
+        def f(x):
+            return x
+        call = f
+    elif role == "ensure":
+        @icontract.ensure(lambda result: result > 0, error=err)
+        def f(x):
+            return x
+        call = f
+    elif role == "async":
+        @icontract.require(positive, error=err)
+        async def f(x):
+            return x
+        call = lambda x: _drive_all(f(x))  # noqa: E731
+    else:
+        @icontract.invariant(lambda self: self.x > 0, error=err)
+        class A:
+            def __init__(self, x):
+                self.x = x
+        call = A
+    fails = []
+    raised = []
+    for k in range(1, 5):
+        if k == 3:
+            call(5)
+        try:
+            call(-1)
+            fails.append("%s: violation %d returned normally" % (role, k))
+            continue
+        except ValueError as e:
+            raised.append(e)
+            if str(e) != "violation number %d" % k or state["n"] != k:
+                fails.append("%s, error as %s: violation %d raised %r and the error function had been called %d times"
+                             % (role, case["error"], k, str(e), state["n"]))
+        except BaseException as e:  # noqa: B902
+            fails.append("%s: violation %d raised %s" % (role, k, type(e).__name__))
+    if len(set(id(e) for e in raised)) != len(raised):
+        fails.append("%s: the same exception object was raised for different violations" % role)
+    return {"fails": fails}
+
+
+def error_function_called_every_time_cases():
+    for role in ("require", "ensure", "async", "invariant"):
+        for error in ("function", "lambda", "bound"):
+            yield {"dom": "directed", "name": "error_function_called_every_time", "role": role, "error": error}
+
+
+def method_contracts_during_reentry(case):
+    """while an object is in progress (inside one of its public methods, its constructor or one of its invariants) only its
+    INVARIANTS are suspended: a method's own preconditions and postconditions are checked on every call"""
+    def nonneg(x):
+        return x >= 0
+
+    def inv(self):
+        if case["from"] == "invariant" and self.probe:
+            self.probe = False
+            try:
+                self.take(-1)
+                self.seen.append("returned")
+            except icontract.ViolationError:
+                self.seen.append("violation")
+            finally:
+                self.probe = True
+        return True
+
+    @icontract.invariant(inv)
+    class A:
+        def __init__(self, probe_in_init=False):
+            self.probe = False
+            self.seen = []
+            if probe_in_init:
+                try:
+                    self.take(-1)
+                    self.seen.append("returned")
+                except icontract.ViolationError:
+                    self.seen.append("violation")
+
+        @icontract.require(nonneg)
+        @icontract.ensure(lambda result: result != 7)
+        def take(self, x):
+            return x
+
+        def outer(self, x):
+            return self.take(x)
+
+        def recurse(self, x):
+            if x == 3:
+                return self.recurse(-1 if case["what"] == "pre" else 7)
+            return self.take(x)
+
+    fails = []
+    bad = -1 if case["what"] == "pre" else 7
+    if case["from"] == "method":
+        a = A()
+        for call, label in ((lambda: a.outer(bad), "from the body of another public method"), (lambda: a.recurse(3), "from a recursive call")):
+            try:
+                call()
+                fails.append("take(%r) %s returned normally" % (bad, label))
+            except icontract.ViolationError:
+                pass
+            except BaseException as e:  # noqa: B902
+                fails.append("take(%r) %s raised %s" % (bad, label, type(e).__name__))
+        if a.outer(1) != 1:
+            fails.append("a valid nested call failed")
+    elif case["from"] == "constructor":
+        a = A(probe_in_init=True)
+        if a.seen != ["violation"]:
+            fails.append("take(-1) from the constructor: %s, expected a violation" % a.seen)
+    else:
+        a = A()
+        a.probe = True
+        a.outer(1)
+        if not a.seen or set(a.seen) != {"violation"}:
+            fails.append("take(-1) from an invariant: %s, expected violations" % a.seen)
+    return {"fails": fails}
+
+
+def method_contracts_during_reentry_cases():
+    for frm in ("method", "constructor", "invariant"):
+        for what in ("pre", "post"):
+            yield {"dom": "directed", "name": "method_contracts_during_reentry", "from": frm, "what": what}
+
+
+def constructor_interrupted(case):
+    """a constructor ended by a BaseException that is no Exception (KeyboardInterrupt, SystemExit, GeneratorExit, an own
+    class) leaves nothing behind: the same object is checked again afterwards"""
+    class Stop(BaseException):
+        pass
+
+    exc = {"KeyboardInterrupt": KeyboardInterrupt, "SystemExit": SystemExit, "GeneratorExit": GeneratorExit, "own": Stop,
+           "Exception": RuntimeError}[case["exc"]]
+
+    def positive(self):
+        return self.x > 0
+
+    @icontract.invariant(positive)
+    class A:
+        def __init__(self, x, stop=False):
+            self.x = x
+            if stop:
+                raise exc()
+
+        def set(self, v):
+            self.x = v
+
+    pool = {}
+    if case["how"] == "pooled":
+        @icontract.invariant(positive)
+        class A:  # noqa: F811
+            def __new__(cls, x, stop=False):
+                if "one" not in pool:
+                    pool["one"] = super().__new__(cls)
+                return pool["one"]
+
+            def __init__(self, x, stop=False):
+                self.x = x
+                if stop:
+                    raise exc()
+
+            def set(self, v):
+                self.x = v
+    fails = []
+    if case["how"] == "pooled":
+        try:
+            A(1, stop=True)
+        except exc:
+            pass
+        obj = pool["one"]
+    else:
+        obj = A.__new__(A)
+        try:
+            obj.__init__(1, stop=True)
+        except exc:
+            pass
+    for label, call in (("obj.__init__(-1)", lambda: obj.__init__(-1)), ("obj.set(-2)", lambda: obj.set(-2))):
+        obj.x = 1
+        try:
+            call()
+            fails.append("after a constructor ended by %s: %s returned normally" % (case["exc"], label))
+        except icontract.ViolationError:
+            pass
+        except BaseException as e:  # noqa: B902
+            fails.append("after a constructor ended by %s: %s raised %s" % (case["exc"], label, type(e).__name__))
+    return {"fails": fails}
+
+
+def constructor_interrupted_cases():
+    for exc in ("KeyboardInterrupt", "SystemExit", "GeneratorExit", "own", "Exception"):
+        for how in ("direct", "pooled"):
+            yield {"dom": "directed", "name": "constructor_interrupted", "exc": exc, "how": how}
+
+
+def first_calls_at_the_same_moment(case):
+    """two threads make the very FIRST calls of a contracted function at the same moment; the function has a parameter with
+    a default value which a condition reads and whose comparisons are slow (an array-like default): both calls see the
+    default"""
+    import threading
+    gate = {"armed": False, "entered": threading.Event(), "go": threading.Event()}
+
+    class Slow:
+        """comparing it takes a while - long enough for another caller to arrive"""
+        def _wait(self):
+            if gate["armed"] and not gate["entered"].is_set():
+                gate["entered"].set()
+                gate["go"].wait(2)
+
+        def __ne__(self, other):
+            self._wait()
+            return True
+
+        def __eq__(self, other):
+            self._wait()
+            return False
+
+        __hash__ = object.__hash__
+
+    default = Slow()
+
+    @icontract.require(lambda x, factor: factor is default and x > 0)
+    def f(x, factor=default):
+        return x
+
+    gate["armed"] = True
+    out = {}
+
+    def caller(name):
+        try:
+            f(1)
+            out[name] = "ok"
+        except BaseException as e:  # noqa: B902
+            out[name] = "raised %s: %s" % (type(e).__name__, str(e)[:90])
+
+    t1 = threading.Thread(target=caller, args=("first",))
+    t1.start()
+    gate["entered"].wait(1)          # the first caller is inside a comparison of the default (or already done)
+    t2 = threading.Thread(target=caller, args=("second",))
+    t2.start()
+    t2.join(3)
+    gate["go"].set()
+    t1.join(3)
+    fails = ["%s caller: %s" % (k, v) for k, v in sorted(out.items()) if v != "ok"]
+    if len(out) != 2:
+        fails.append("a caller did not finish: %s" % out)
+    return {"fails": fails}
+
+
+def first_calls_at_the_same_moment_cases():
+    yield {"dom": "directed", "name": "first_calls_at_the_same_moment"}
+
+
+def base_call_while_override_runs(case):
+    """while the body of an OVERRIDING method is in flight in one thread / task (blocked inside super().m()), another thread /
+    task calls the base class's method on another object with arguments that violate its contracts: it is checked"""
+    import threading
+
+    def positive(amount):
+        return amount > 0
+
+    if case["mode"] == "thread":
+        inside, go = threading.Event(), threading.Event()
+
+        class Account(icontract.DBC):
+            @icontract.require(positive)
+            @icontract.ensure(lambda result: result >= 0)
+            def withdraw(self, amount, block=False):
+                if block:
+                    inside.set()
+                    go.wait(3)
+                return amount
+
+        class Overdraft(Account):
+            def withdraw(self, amount, block=False):
+                return super().withdraw(amount, block)
+
+        t = threading.Thread(target=lambda: Overdraft().withdraw(10, True))
+        t.start()
+        inside.wait(2)
+        try:
+            Account().withdraw(-5)
+            got = "returned"
+        except icontract.ViolationError:
+            got = "violation"
+        except BaseException as e:  # noqa: B902
+            got = "raised %s" % type(e).__name__
+        go.set()
+        t.join(3)
+    else:
+        class Account(icontract.DBC):
+            @icontract.require(positive)
+            @icontract.ensure(lambda result: result >= 0)
+            async def withdraw(self, amount, block=False):
+                if block:
+                    await _Yielder()
+                return amount
+
+        class Overdraft(Account):
+            async def withdraw(self, amount, block=False):
+                return await super().withdraw(amount, block)
+
+        import contextvars
+        c1, c2 = contextvars.copy_context(), contextvars.copy_context()
+        co = Overdraft().withdraw(10, True)
+        c1.run(co.send, None)            # suspended inside super().withdraw
+        try:
+            c2.run(_drive_all, Account().withdraw(-5))
+            got = "returned"
+        except icontract.ViolationError:
+            got = "violation"
+        except BaseException as e:  # noqa: B902
+            got = "raised %s" % type(e).__name__
+        try:
+            c1.run(co.send, None)
+        except StopIteration:
+            pass
+    return {"fails": [] if got == "violation" else ["Account().withdraw(-5) while Overdraft().withdraw(10) is in flight (%s): %s, expected a violation"
+                                                   % (case["mode"], got)]}
+
+
+def base_call_while_override_runs_cases():
+    for mode in ("thread", "task"):
+        yield {"dom": "directed", "name": "base_call_while_override_runs", "mode": mode}
+
+
+def constructor_keyword_named_cls(case):
+    """a class with invariants and no constructor of its own (checked by the __new__ hook) is constructed with a KEYWORD
+    argument called `cls` (or `self`, `args`, `kwargs`, `instance`): it reaches the constructor like any other keyword"""
+    import typing
+    name = case["keyword"]
+    fails = []
+    if case["shape"] == "namedtuple":
+        NT = typing.NamedTuple("NT", [(name, int), ("other", int)])
+
+        def other_nonneg(self):
+            return self.other >= 0
+        K = icontract.invariant(other_nonneg)(NT)
+        try:
+            v = K(**{name: 3, "other": 1})
+            if getattr(v, name) != 3 or v.other != 1:
+                fails.append("NamedTuple(%s=3, other=1) holds %r" % (name, tuple(v)))
+        except BaseException as e:  # noqa: B902
+            fails.append("NamedTuple(%s=3, other=1): %s: %s" % (name, type(e).__name__, str(e)[:80]))
+        try:
+            K(**{name: 3, "other": -1})
+            fails.append("NamedTuple(%s=3, other=-1) was accepted although the invariant is false" % name)
+        except icontract.ViolationError:
+            pass
+        except BaseException as e:  # noqa: B902
+            fails.append("NamedTuple(%s=3, other=-1): %s" % (name, type(e).__name__))
+    else:
+        def fine(self):
+            return True
+
+        @icontract.invariant(fine)
+        class Base:
+            pass
+
+        seen = {}
+
+        def init(self, **kwargs):
+            seen.update(kwargs)
+        Sub = type("Sub", (Base,), {"__init__": init})
+        sentinel = object()
+        try:
+            Sub(**{name: sentinel})
+            if seen.get(name) is not sentinel:
+                fails.append("Sub(%s=<object>): the constructor got %r" % (name, seen))
+        except BaseException as e:  # noqa: B902
+            fails.append("Sub(%s=<object>): %s: %s" % (name, type(e).__name__, str(e)[:80]))
+    return {"fails": fails}
+
+
+def constructor_keyword_named_cls_cases():
+    for shape in ("namedtuple", "subclass"):
+        for keyword in ("cls", "klass", "instance", "args", "kwargs", "func"):
+            yield {"dom": "directed", "name": "constructor_keyword_named_cls", "shape": shape, "keyword": keyword}
+
+
+def property_docstrings(case):
+    """giving a class invariants leaves the docstring of every property as it was - also one given with `doc=` that differs
+    from the getter's, and the one of a write-only property"""
+    def getter(self):
+        """internal getter docstring"""
+        return 1
+
+    def bare(self):
+        return 1
+
+    def setter(self, v):
+        pass
+
+    def make():
+        return {"a": property(getter, setter, doc="public docstring"),
+                "b": property(bare, doc="only the property has one"),
+                "c": property(None, setter, doc="write-only"),
+                "d": property(getter),
+                "e": property(bare)}
+
+    def fine(self):
+        return True
+
+    plain = type("P", (), make())
+    if case["how"] == "decorator":
+        K = icontract.invariant(fine)(type("K", (), make()))
+    else:
+        K = type("K", (icontract.DBC,), make())
+        K = icontract.invariant(fine)(K)
+    if case["subclass"]:
+        K = type("Sub", (K,), {})
+    fails = []
+    for n in "abcde":
+        if getattr(K, n).__doc__ != getattr(plain, n).__doc__:
+            fails.append("property %s: __doc__ is %r, without invariants it is %r" % (n, getattr(K, n).__doc__, getattr(plain, n).__doc__))
+    return {"fails": fails}
+
+
+def property_docstrings_cases():
+    for how in ("decorator", "dbc"):
+        for subclass in (False, True):
+            yield {"dom": "directed", "name": "property_docstrings", "how": how, "subclass": subclass}
+
+
+def functions_from_one_definition(case):
+    """several functions made from ONE definition (a factory, a loop) share a code object but have their own default values:
+    each is checked against ITS defaults, in whatever order they are decorated and called"""
+    def below(x, limit):
+        return x < limit
+
+    def make(limit, decorate=True):
+        def f(x, limit=limit):
+            return x
+        if decorate:
+            return icontract.require(below)(f)
+        return f
+
+    limits = case["limits"]
+    if case["how"] == "late":
+        fs = [make(lim, decorate=False) for lim in limits]
+        fs = [icontract.require(below)(f) for f in fs]
+    elif case["how"] == "methods":
+        def klass(limit):
+            class K:
+                @icontract.require(below)
+                def m(self, x, limit=limit):
+                    return x
+            return K
+        fs = [klass(lim)().m for lim in limits]
+    else:
+        fs = [make(lim) for lim in limits]
+    fails = []
+    for f, lim in zip(fs, limits):
+        for x in (lim - 1, lim, 5, 500):
+            want = "ok" if x < lim else "violation"
+            try:
+                f(x)
+                got = "ok"
+            except icontract.ViolationError:
+                got = "violation"
+            except BaseException as e:  # noqa: B902
+                got = "raised %s" % type(e).__name__
+            if got != want:
+                fails.append("the function with the default limit=%d (made %s, limits %s): f(%d) %s, expected %s" % (lim, case["how"], limits, x, got, want))
+    return {"fails": fails}
+
+
+def functions_from_one_definition_cases():
+    for how in ("factory", "late", "methods"):
+        for limits in ([10, 1000], [1000, 10], [10, 10, 100]):
+            yield {"dom": "directed", "name": "functions_from_one_definition", "how": how, "limits": limits}
+
+
+def late_decoration_of_inheriting_accessor(case):
+    """a property accessor that overrides a contracted base accessor WITHOUT own contracts is decorated after its class
+    exists: the base's accessor and the accessors of sibling classes keep their contracts"""
+    def small(value):
+        return value < 1000
+
+    class Base(icontract.DBC):
+        def __init__(self):
+            self._v = 0
+
+        @property
+        def level(self):
+            return self._v
+
+        @level.setter
+        @icontract.require(small)
+        def level(self, value):
+            self._v = value
+
+        @icontract.require(small)
+        def put(self, value):
+            self._v = value
+
+    def mk(name):
+        def setter(self, value):
+            self._v = value
+
+        def put(self, value):
+            self._v = value
+        return type(name, (Base,), {"level": Base.level.setter(setter), "put": put})
+
+    Restricted, Sibling = mk("Restricted"), mk("Sibling")
+    which = case["member"]
+    def tiny(value):
+        return value < 100
+
+    if which == "setter":
+        icontract.require(tiny)(Restricted.level.fset)
+    else:
+        icontract.require(tiny)(Restricted.put)
+    fails = []
+    for cls in (Base, Sibling):
+        for v, want in ((500, "ok"), (5000, "violation")):
+            o = cls()
+            try:
+                if which == "setter":
+                    o.level = v
+                else:
+                    o.put(v)
+                got = "ok"
+            except icontract.ViolationError:
+                got = "violation"
+            except BaseException as e:  # noqa: B902
+                got = "raised %s" % type(e).__name__
+            if got != want:
+                fails.append("%s().%s = %d after the late decoration of Restricted's %s: %s, expected %s"
+                             % (cls.__name__, "level" if which == "setter" else "put(..)", v, which, got, want))
+    return {"fails": fails}
+
+
+def late_decoration_of_inheriting_accessor_cases():
+    for member in ("setter", "method"):
+        yield {"dom": "directed", "name": "late_decoration_of_inheriting_accessor", "member": member}
+
+
+def reserved_placeholders_without_var_keyword(case):
+    """`_ARGS` / `_KWARGS` given as a keyword argument are refused with TypeError BEFORE any condition is evaluated - also by
+    a function that has no **kwargs parameter"""
+    evaluated = []
+
+    def cond(x):
+        evaluated.append("cond")
+        return case["holds"]
+
+    def reads(_ARGS, _KWARGS, x):
+        evaluated.append("cond")
+        return case["holds"]
+
+    c = reads if case["reads"] else cond
+    if case["shape"] == "function":
+        @icontract.require(c)
+        def f(x=1):
+            evaluated.append("body")
+            return x
+        call = f
+    elif case["shape"] == "async":
+        @icontract.require(c)
+        async def af(x=1):
+            evaluated.append("body")
+            return x
+        call = lambda **k: _drive_all(af(**k))  # noqa: E731
+    elif case["shape"] == "method":
+        class A:
+            @icontract.require(c)
+            def m(self, x=1):
+                evaluated.append("body")
+                return x
+        call = A().m
+    else:
+        @icontract.require(c)
+        def g(x=1, **kwargs):
+            evaluated.append("body")
+            return x
+        call = g
+    fails = []
+    for kw in ("_ARGS", "_KWARGS"):
+        del evaluated[:]
+        try:
+            call(**{kw: (1,)})
+            got = "accepted"
+        except TypeError:
+            got = "TypeError"
+        except icontract.ViolationError:
+            got = "ViolationError"
+        except BaseException as e:  # noqa: B902
+            got = type(e).__name__
+        if got != "TypeError" or evaluated:
+            fails.append("%s called with the keyword %s (condition %s): %s, evaluated %s - expected TypeError before anything is evaluated"
+                         % (case["shape"], kw, "holds" if case["holds"] else "fails", got, evaluated))
+    return {"fails": fails}
+
+
+def reserved_placeholders_without_var_keyword_cases():
+    for shape in ("function", "async", "method", "var_keyword"):
+        for holds in (True, False):
+            for reads in (False, True):
+                yield {"dom": "directed", "name": "reserved_placeholders_without_var_keyword", "shape": shape, "holds": holds, "reads": reads}
+
+
+def coroutine_invariant_spellings(case):
+    """an invariant whose condition is a coroutine function - written as `async def`, as a functools.partial of one (nested
+    too), as a bound async method - is refused when the invariant is DEFINED, with ValueError"""
+    import functools
+
+    async def check(self, k=0):
+        return True
+
+    class H:
+        async def check(self, other):
+            return True
+
+    conds = {"async def": check, "partial": functools.partial(check, k=1), "nested partial": functools.partial(functools.partial(check), k=2),
+             "partial without arguments": functools.partial(check), "bound method": H().check}
+    cond = conds[case["spelling"]]
+    kwargs = {}
+    if case["check_on"]:
+        kwargs["check_on"] = icontract.InvariantCheckEvent.ALL
+    try:
+        icontract.invariant(cond, **kwargs)
+        got = "accepted"
+    except ValueError:
+        got = "ValueError"
+    except BaseException as e:  # noqa: B902
+        got = type(e).__name__
+    return {"fails": [] if got == "ValueError" else ["an invariant whose condition is a coroutine function given as %s: %s at definition, expected ValueError"
+                                                     % (case["spelling"], got)]}
+
+
+def coroutine_invariant_spellings_cases():
+    for spelling in ("async def", "partial", "nested partial", "partial without arguments", "bound method"):
+        for check_on in (False, True):
+            yield {"dom": "directed", "name": "coroutine_invariant_spellings", "spelling": spelling, "check_on": check_on}
+
+
+SCENARIOS = {"awaitable_kinds": awaitable_kinds, "wrapped_async_public_method": wrapped_async_public_method, "odd_member_names": odd_member_names, "member_attached_later": member_attached_later, "partial_binding_a_parameter_name": partial_binding_a_parameter_name, "odd_capture_callables": odd_capture_callables, "error_function_called_every_time": error_function_called_every_time, "method_contracts_during_reentry": method_contracts_during_reentry, "constructor_interrupted": constructor_interrupted, "first_calls_at_the_same_moment": first_calls_at_the_same_moment, "base_call_while_override_runs": base_call_while_override_runs, "constructor_keyword_named_cls": constructor_keyword_named_cls, "property_docstrings": property_docstrings, "functions_from_one_definition": functions_from_one_definition, "late_decoration_of_inheriting_accessor": late_decoration_of_inheriting_accessor, "reserved_placeholders_without_var_keyword": reserved_placeholders_without_var_keyword, "coroutine_invariant_spellings": coroutine_invariant_spellings, "default_limits": default_limits, "one_function_in_two_roles": one_function_in_two_roles, "callable_exception_instance": callable_exception_instance, "contracts_on_bound_methods": contracts_on_bound_methods, "rejected_constructions_do_not_accumulate": rejected_constructions_do_not_accumulate, "sometimes_awaitable_condition": sometimes_awaitable_condition, "property_inherited_into_class_with_invariants": property_inherited_into_class_with_invariants, "members_from_invariantless_bases": members_from_invariantless_bases, "invariants_while_another_thread_reports": invariants_while_another_thread_reports, "separation_in_every_interpreter_mode": separation_in_every_interpreter_mode, "falsy_and_truthy_values": falsy_and_truthy_values, "special_results": special_results, "contracts_on_partial": contracts_on_partial, "error_functions_sharing_code": error_functions_sharing_code, "closed_from_another_context": closed_from_another_context, "proxies_and_nested_constructors": proxies_and_nested_constructors, "member_added_between_invariants": member_added_between_invariants, "integrator_snapshot_without_postcondition": integrator_snapshot_without_postcondition, "exception_from_new": exception_from_new, "interrupt_while_message_is_built": interrupt_while_message_is_built, "concurrent_constructors_without_init": concurrent_constructors_without_init, "async_def_spelling": async_def_spelling, "class_keyword_arguments": class_keyword_arguments, "reserved_keyword_after_valid_calls": reserved_keyword_after_valid_calls, "call_while_constructor_runs": call_while_constructor_runs, "constructor_calls_back": constructor_calls_back, "contract_calls_same_method_of_fresh_object": contract_calls_same_method_of_fresh_object, "odd_exception_classes": odd_exception_classes, "sync_layer_over_coroutine": sync_layer_over_coroutine, "keyword_named_self": keyword_named_self, "decorating_another_function": decorating_another_function, "late_decoration_of_inheriting_override": late_decoration_of_inheriting_override, "used_before_override": used_before_override, "rewritten_file": rewritten_file, "shared_decorator": shared_decorator, "construct_inside_contract": construct_inside_contract,
              "cancelled_in_body": cancelled_in_body, "recreated_class": recreated_class}
 
 
